@@ -10,27 +10,28 @@ IJ == {"i", "j"}
 IJK == {"i", "j", "k"}
 W2 == {"scope", "jump"}
 \* two leaves, two productions: scalars, a vector, a 2x3 matrix, a pointwise and a generating function
-FamCore == Fam(2, 2, 2, {"c", "a", "B"}, {"2"}, {"g"}, IJ, IJ, {"2", "-1"}, W2, None, None, None)
-FamCore0 == Fam(2, 2, 2, {"c", "a", "B"}, {"2"}, {"sqr", "g"}, {"i", "j", "0"}, IJ, {"2", "-1"}, AllWraps, None, None, None)
+FamCore == [Fam(2, 2, 2, {"c", "a", "B"}, {"2"}, {"g"}, IJ, IJ, {"2", "-1"}, W2, None, None, None) EXCEPT !.PK = TRUE]
+FamCore0 == [Fam(2, 2, 2, {"c", "a", "B"}, {"2"}, {"sqr", "g"}, {"i", "j", "0"}, IJ, {"2", "-1"}, AllWraps, None, None, None) EXCEPT !.PK = TRUE]
 \* every rule-breaking constructor / every token corruption and the whitespace style, small vocabulary
 FamMut == Fam(2, 1, 2, {"c", "a"}, {"2"}, {"g"}, {"i"}, {"i"}, {"2"}, {"scope"}, AllMuts, None, None)
 FamMut2 == Fam(2, 2, 2, {"c", "a"}, {"2"}, {"g"}, {"i"}, {"i"}, {"2"}, {"scope"}, AllMuts, None, None)
 FamMut3 == Fam(3, 2, 3, {"c"}, {"2"}, None, None, None, {"2"}, None, {"number-position", "repeated-power", "repeated-fraction", "misplaced-minus"}, None, None)
-FamCor == Fam(2, 1, 2, {"c", "a"}, {"2"}, {"g"}, {"i"}, {"i"}, {"2"}, {"mean"}, None, AllCors, {1})
-FamCor2 == Fam(2, 2, 2, {"c", "a"}, {"2"}, {"g"}, {"i"}, {"i"}, {"2"}, {"mean"}, None, AllCors, {1})
+FamCor == [Fam(2, 1, 2, {"c", "a"}, {"2"}, {"g"}, {"i"}, {"i"}, {"2"}, {"mean"}, None, AllCors, {1}) EXCEPT !.PK = TRUE]
+FamCor2 == [Fam(2, 2, 2, {"c", "a"}, {"2"}, {"g"}, {"i"}, {"i"}, {"2"}, {"mean"}, None, AllCors, {1}) EXCEPT !.PK = TRUE]
 \* one leaf: numerals, traces, selections on arrays of rank 1..3
-FamRank3 == Fam(1, 2, 1, {"A", "B", "T", "u"}, None, None, {"i", "j", "k", "0", "2"}, None, {"2"}, W2, None, None, None)
+FamRank3 == [Fam(1, 2, 1, {"A", "B", "T", "u"}, None, None, {"i", "j", "k", "0", "2"}, None, {"2"}, W2, None, None, None) EXCEPT !.PK = TRUE]
 \* one leaf, one call: generated axes with numerals, traced with the argument's axes
-FamGen == Fam(1, 1, 1, {"A", "B", "T", "u"}, None, {"g", "h", "G"}, IJK, {"i", "j", "k", "0", "1"}, None, None, None, None, None)
+FamGen == [Fam(1, 1, 1, {"A", "B", "T", "u"}, None, {"g", "h", "G"}, IJK, {"i", "j", "k", "0", "1"}, None, None, None, None, None) EXCEPT !.PK = TRUE]
 \* two leaves of rank 3 (and 2): transposition to the first term's order, products with several common indices
-FamPerm == Fam(2, 1, 2, {"T"}, None, None, IJK, None, None, None, None, None, None)
-FamPerm2 == Fam(2, 1, 2, {"T", "A"}, None, {"G"}, IJK, IJK, None, None, None, None, None)
+FamPerm == [Fam(2, 1, 2, {"T"}, None, None, IJK, None, None, None, None, None, None) EXCEPT !.PK = TRUE]
+FamPerm2 == [Fam(2, 1, 2, {"T", "A"}, None, {"G"}, IJK, IJK, None, None, None, None, None) EXCEPT !.PK = TRUE]
 \* three leaves, only trees that follow the rules
 FamThreeV == [Fam(3, 3, 3, {"c", "a", "B"}, {"2"}, {"g"}, IJ, IJ, {"2"}, {"scope"}, None, None, None) EXCEPT !.VO = TRUE]
 \* three leaves over a vector and a square matrix with one letter: summed-index bookkeeping across sums, fractions, powers
-FamSummed == Fam(3, 3, 3, {"c", "a", "A"}, None, None, {"i"}, None, None, {"scope"}, None, None, None)
+FamSummed == [Fam(3, 2, 3, {"c", "a", "A"}, None, None, {"i"}, None, None, {"scope"}, None, None, None) EXCEPT !.PK = TRUE]
+FamSummed3 == [Fam(3, 3, 3, {"c", "a", "A"}, None, None, {"i"}, None, None, {"scope"}, None, None, None) EXCEPT !.PK = TRUE]
 \* three leaves
-FamThree == Fam(3, 3, 3, {"c", "a"}, {"2"}, {"sqr", "g"}, IJ, {"i"}, {"2"}, W2, None, None, None)
+FamThree == [Fam(3, 3, 3, {"c", "a"}, {"2"}, {"sqr", "g"}, IJ, {"i"}, {"2"}, W2, None, None, None) EXCEPT !.PK = TRUE]
 \* random walks: a narrow index alphabet (many valid trees), the wide one, rule breakers, corruptions
 SimNums == {"2", "3", "10", "0.5", ".5", "1.5", "0"}
 SimExps == {"2", "3", "-1", "-2", "0"}
